@@ -612,6 +612,6 @@ def main(argv) -> int:
             chk.mark_inconclusive(f"rule {rule_name} exercised only {n} times")
     if len(rules_seen) < 20:
         chk.mark_inconclusive(f"only {len(rules_seen)} rules exercised")
-    chk.require_min("mutations_judged", chk.pick(300, 10000))
+    chk.require_min("mutations_judged", chk.pick(300, 3000))
     chk.assume("a crash of the front end on a mutated model is not judged here (C01 owns it); only acceptance of a rule-breaking model is a C06 violation")
     return chk.finish()
